@@ -991,6 +991,66 @@ func checkC12(ctx *Ctx) *Result {
 			}
 			r.check(bad == "", "R12.2", funcName(f), ctx.P.Pos(f.Pos()), bad, n+1)
 		}
+		// ... nor by the Middleware itself: what NewMiddleware and Reconfigure
+		// store into it does not derive from their Config argument
+		for _, name := range []string{"NewMiddleware", "(*Middleware).Reconfigure"} {
+			f := ctx.P.Func(pkgRoot, name)
+			if f == nil {
+				continue
+			}
+			cfgIdx := -1
+			for i, q := range f.Params {
+				if isNamedPtr(q.Type(), pkgRoot, "Config") {
+					cfgIdx = i
+				}
+			}
+			bad := ""
+			n := 0
+			for _, b := range f.Blocks {
+				for _, ins := range b.Instrs {
+					st, ok := ins.(*ssa.Store)
+					if !ok {
+						continue
+					}
+					fa, isFA := st.Addr.(*ssa.FieldAddr)
+					if !isFA || !isNamedPtr(fa.X.Type(), pkgRoot, "Middleware") || !isRefType(st.Val.Type()) {
+						continue
+					}
+					n++
+					// what the stored value designates, and — for the address of a
+					// local copy — what was copied into it
+					rts := we.roots(st.Val)
+					var cells func(v ssa.Value, seen map[ssa.Value]bool)
+					cells = func(v ssa.Value, seen map[ssa.Value]bool) {
+						if v == nil || seen[v] {
+							return
+						}
+						seen[v] = true
+						switch x := v.(type) {
+						case *ssa.Phi:
+							for _, e := range x.Edges {
+								cells(e, seen)
+							}
+						case *ssa.Alloc:
+							if x.Referrers() != nil {
+								for _, ref := range *x.Referrers() {
+									if s2, ok := ref.(*ssa.Store); ok && s2.Addr == x && isRefType(s2.Val.Type()) {
+										rts = append(rts, we.roots(s2.Val)...)
+									}
+								}
+							}
+						}
+					}
+					cells(st.Val, map[ssa.Value]bool{})
+					for _, rt := range rts {
+						if rt.Kind == RParam && rt.Idx == cfgIdx {
+							bad = fmt.Sprintf("%s stores into the Middleware a value derived from the caller's Config (the caller can change it afterwards) @%s", funcName(f), ctx.P.Pos(st.Pos()))
+						}
+					}
+				}
+			}
+			r.check(bad == "", "R12.2", funcName(f)+": the Middleware retains nothing of the caller's Config", ctx.P.Pos(f.Pos()), bad, n+1)
+		}
 	}
 	// R12.3
 	nc := ctx.P.Func(pkgRoot, "newConfig")
